@@ -16,6 +16,7 @@
 #include <fcppt/container/set_intersection.hpp>
 #include <fcppt/container/set_difference.hpp>
 #include <fcppt/container/contains.hpp>
+#include <fcppt/container/join.hpp>
 #include <fcppt/container/maybe_front.hpp>
 #include <fcppt/container/maybe_back.hpp>
 #include <fcppt/container/pop_front.hpp>
@@ -55,6 +56,8 @@ struct fixmap {   // sorted array of (key, mapped), capacity 4
   iterator begin() { return d; } iterator end() { return d + n; } const_iterator begin() const { return d; } const_iterator end() const { return d + n; } size_type size() const { return n; }
   iterator find(int k) { for (std::size_t i = 0; i < 4 && i < n; ++i) if (d[i].first == k) return d + i; return d + n; }
   const_iterator find(int k) const { for (std::size_t i = 0; i < 4 && i < n; ++i) if (d[i].first == k) return d + i; return d + n; }
+  template <typename It> void insert(It f, It l) { for (; f != l; ++f) emplace((*f).first, (*f).second); }   // associative range insert: present keys keep their value
+  void swap(fixmap &o) { fixmap t{*this}; *this = o; o = t; }
   std::pair<iterator, bool> emplace(int k, int m) { std::size_t i = 0; while (i < n && i < 4 && d[i].first < k) ++i; if (i < n && d[i].first == k) return {d + i, false}; for (std::size_t j = n; j > i; --j) d[j] = d[j - 1]; d[i] = value_type{k, m}; ++n; return {d + i, true}; }
 };
 struct slotmap {   // node-like container: erasing an element leaves every other iterator valid (what map_iteration relies on)
@@ -83,6 +86,8 @@ void vf_map_values(KV, std::size_t *on, int *o){ MKM; fixvec const s{fcppt::cont
 void vf_set_union(TWOS, std::size_t *on, int *o){ fixset const a{mks(a0, a1, a2, na)}, b{mks(b0, b1, b2, nb)}; puts(fcppt::container::set_union(a, b), on, o); }
 void vf_set_intersection(TWOS, std::size_t *on, int *o){ fixset const a{mks(a0, a1, a2, na)}, b{mks(b0, b1, b2, nb)}; puts(fcppt::container::set_intersection(a, b), on, o); }
 void vf_set_difference(TWOS, std::size_t *on, int *o){ fixset const a{mks(a0, a1, a2, na)}, b{mks(b0, b1, b2, nb)}; puts(fcppt::container::set_difference(a, b), on, o); }
+void vf_join_maps_lr(int k0, int m0, int k1, int m1, std::size_t n1, int j0, int p0, int j1, int p1, std::size_t n2, std::size_t *on, int *o){ fixmap a{{{k0, m0}, {k1, m1}, {0, 0}, {0, 0}}, n1}; fixmap b{{{j0, p0}, {j1, p1}, {0, 0}, {0, 0}}, n2}; putm(fcppt::container::join(a, std::move(b)), on, o); }
+void vf_join_maps_rr(int k0, int m0, int k1, int m1, std::size_t n1, int j0, int p0, int j1, int p1, std::size_t n2, std::size_t *on, int *o){ fixmap a{{{k0, m0}, {k1, m1}, {0, 0}, {0, 0}}, n1}; fixmap b{{{j0, p0}, {j1, p1}, {0, 0}, {0, 0}}, n2}; putm(fcppt::container::join(std::move(a), std::move(b)), on, o); }
 bool vf_container_contains(int a0, int a1, int a2, std::size_t n, int key){ fixset const a{mks(a0, a1, a2, n)}; return fcppt::container::contains(a, key); }
 // iteration helpers
 void vf_sequence_iteration(int a0, int a1, int a2, std::size_t n, std::size_t *on, int *o){ fixvec c{{a0, a1, a2, 0}, n};
